@@ -193,15 +193,21 @@ def alphabet(nlabels: int) -> List[Tuple]:
 
 
 def replay_history(packcfg, nlabels, hist) -> Run:
-    r = Run(packcfg, nlabels)
-    try:
-        with deadline(0.2):  # a queue operation takes microseconds
-            for op in hist:
-                r.apply(op)
-                if r.error:
-                    break
-    except Timeout:
-        r.fail("non-termination", f"an operation of {list(hist)} did not return within the horizon")
+    # a queue operation takes microseconds; the deadline is wall time, so a worker that was
+    # merely descheduled on a loaded machine is given a second, 50 times longer, attempt
+    # before the history is reported as not returning
+    for horizon in (0.2, 10.0):
+        r = Run(packcfg, nlabels)
+        try:
+            with deadline(horizon):
+                for op in hist:
+                    r.apply(op)
+                    if r.error:
+                        break
+            return r
+        except Timeout:
+            continue
+    r.fail("non-termination", f"an operation of {list(hist)} did not return within the horizon")
     return r
 
 
